@@ -763,4 +763,177 @@ theorem postprocess_keeps (R P A : List (List Nat)) (o : MapOut)
     simp only [(cutLike_shape R mR rep.lenR).2, (cutLike_shape P mP rep.lenP).2]
     exact repairFlat_keeps _ _ _ _ _ _ hr
 
+/-! ## `remap=True` leaves no gaps -/
+
+/-- closing the gaps `L` (descending, all below `n`, none in use, every number of `1 … n-1` a gap or in use) maps the
+    numbers in use onto exactly `1 … n - 1 - |L|` -/
+theorem shiftBy_gapfree : ∀ (L S : List Nat) (n : Nat), L.Pairwise (· > ·) →
+    (∀ j ∈ L, 1 ≤ j ∧ j < n ∧ j ∉ S) → (∀ x ∈ S, 1 ≤ x ∧ x < n) → (∀ k, 1 ≤ k → k < n → k ∈ L ∨ k ∈ S) →
+    (∀ y ∈ S.map (shiftBy L), 1 ≤ y ∧ y < n - L.length) ∧ (∀ k, 1 ≤ k → k < n - L.length → k ∈ S.map (shiftBy L)) := by
+  intro L
+  induction L with
+  | nil =>
+    intro S n _ _ hb hc
+    have : shiftBy [] = id := by funext x; rfl
+    simp only [this, List.map_id, List.length_nil, Nat.sub_zero]
+    refine ⟨hb, ?_⟩
+    intro k h1 h2
+    rcases hc k h1 h2 with h | h
+    · cases h
+    · exact h
+  | cons j rest ih =>
+    intro S n hp hL hb hc
+    have hp' := List.pairwise_cons.mp hp
+    obtain ⟨j1, jn, jS⟩ := hL j List.mem_cons_self
+    let g : Nat → Nat := fun x => if x < j then x else x - 1
+    have hmap : S.map (shiftBy (j :: rest)) = (S.map g).map (shiftBy rest) := by
+      rw [List.map_map]; apply List.map_congr_left; intro x _; rfl
+    have hxj : ∀ x ∈ S, x ≠ j := fun x hx e => jS (e ▸ hx)
+    have key := ih (S.map g) (n - 1) hp'.2
+      (by
+        intro k hk
+        have hkj := hp'.1 k hk
+        obtain ⟨k1, _, kS⟩ := hL k (List.mem_cons_of_mem _ hk)
+        refine ⟨k1, by omega, ?_⟩
+        intro hc'
+        obtain ⟨x, hx, e⟩ := List.mem_map.mp hc'
+        have := hxj x hx
+        by_cases a : x < j
+        · simp only [g, a, if_true] at e; exact kS (e ▸ hx)
+        · simp only [g, a, if_false] at e; omega)
+      (by
+        intro y hy
+        obtain ⟨x, hx, e⟩ := List.mem_map.mp hy
+        obtain ⟨x1, xn⟩ := hb x hx
+        have := hxj x hx
+        by_cases a : x < j
+        · simp only [g, a, if_true] at e; omega
+        · simp only [g, a, if_false] at e; omega)
+      (by
+        intro k k1 kn
+        by_cases a : k < j
+        · rcases hc k k1 (by omega) with h | h
+          · rcases List.mem_cons.mp h with e | h
+            · omega
+            · exact Or.inl h
+          · exact Or.inr (List.mem_map.mpr ⟨k, h, by simp only [g, a, if_true]⟩)
+        · rcases hc (k + 1) (by omega) (by omega) with h | h
+          · rcases List.mem_cons.mp h with e | h
+            · omega
+            · have := hp'.1 _ h; omega
+          · have : ¬ (k + 1 < j) := by omega
+            exact Or.inr (List.mem_map.mpr ⟨k + 1, h, by simp only [g, this, if_false]; omega⟩))
+    rw [hmap]
+    have hlen : n - (j :: rest).length = n - 1 - rest.length := by simp only [List.length_cons]; omega
+    rw [hlen]
+    exact key
+
+theorem repairFlat_true_bounds (fR fP fA x y z : List Nat) (h : repairFlat true true fR fP fA = .ok (x, y, z)) :
+    ∃ mR mP mA n, repairFlat false true fR fP fA = .ok (mR, mP, mA) ∧
+      x = mR.map (shiftBy (loseList n (mR ++ mP ++ mA))) ∧ y = mP.map (shiftBy (loseList n (mR ++ mP ++ mA))) ∧
+      z = mA.map (shiftBy (loseList n (mR ++ mP ++ mA))) ∧ ∀ v ∈ mR ++ mP ++ mA, 1 ≤ v ∧ v < n := by
+  unfold repairFlat at h ⊢
+  simp only at h ⊢
+  generalize hstart : max (max (maxList fP) (maxList fR)) (maxList fA) + 1 = start at h ⊢
+  have bR : ∀ x ∈ fR, x < start := fun x hx => by have := le_maxList fR x hx; omega
+  have bP : ∀ x ∈ fP, x < start := fun x hx => by have := le_maxList fP x hx; omega
+  have bA : ∀ x ∈ fA, x < start := fun x hx => by have := le_maxList fA x hx; omega
+  have s1 : 1 ≤ start := by omega
+  obtain ⟨o1, c1, h1⟩ := assign_total fR start []
+  rw [h1] at h ⊢
+  simp only at h ⊢
+  obtain ⟨r1, r2, r3, r4⟩ := assign_spec true fR start [] o1 c1 bR h1
+  obtain ⟨o2, c2, h2⟩ := assign_total fP c1 []
+  rw [h2] at h ⊢
+  simp only at h ⊢
+  obtain ⟨p1, p2, p3, p4⟩ := assign_spec true fP c1 [] o2 c2 (fun x hx => by have := bP x hx; omega) h2
+  obtain ⟨o3, c3, h3⟩ := assign_total fA c2 []
+  rw [h3] at h ⊢
+  simp only at h ⊢
+  obtain ⟨a1, a2, a3, a4⟩ := assign_spec true fA c2 [] o3 c3 (fun x hx => by have := bA x hx; omega) h3
+  have ltR : ∀ x ∈ o1, 1 ≤ x ∧ x < c1 := by
+    intro x hx
+    rcases r4 x hx with ⟨h1, h2, _⟩ | ⟨h1, h2⟩
+    · have := bR x h1; omega
+    · omega
+  have ltP : ∀ x ∈ o2, 1 ≤ x ∧ x < c2 := by
+    intro x hx
+    rcases p4 x hx with ⟨h1, h2, _⟩ | ⟨h1, h2⟩
+    · have := bP x h1; omega
+    · omega
+  have ltA : ∀ x ∈ o3, 1 ≤ x ∧ x < c3 := by
+    intro x hx
+    rcases a4 x hx with ⟨h1, h2, _⟩ | ⟨h1, h2⟩
+    · have := bA x h1; omega
+    · omega
+  by_cases hb : (o3.filter fun x => o1.contains x || o2.contains x).isEmpty = true
+  · simp only [hb, Bool.not_true, Bool.false_and, Bool.false_eq_true, if_false, if_true, Except.ok.injEq,
+      Prod.mk.injEq, foldl_closeGap] at h ⊢
+    obtain ⟨rfl, rfl, rfl⟩ := h
+    refine ⟨o1, o2, o3, c3, ⟨rfl, rfl, rfl⟩, rfl, rfl, rfl, ?_⟩
+    intro v hv
+    simp only [List.mem_append] at hv
+    rcases hv with (h | h) | h
+    · have := ltR v h; omega
+    · have := ltP v h; omega
+    · exact ltA v h
+  · simp only [hb, Bool.not_false, Bool.true_and, Bool.not_true, Bool.false_eq_true, if_false, if_true, Except.ok.injEq,
+      Prod.mk.injEq, foldl_closeGap] at h ⊢
+    obtain ⟨rfl, rfl, rfl⟩ := h
+    obtain ⟨n1, n2, n3, n4⟩ := renumber_spec (o3.filter fun x => o1.contains x || o2.contains x) o3 c3
+      (fun x hx => (ltA x hx).2) a3
+    refine ⟨o1, o2, _, (renumberIn (o3.filter fun x => o1.contains x || o2.contains x) c3 o3).2, ⟨rfl, rfl, rfl⟩,
+      rfl, rfl, rfl, ?_⟩
+    intro v hv
+    simp only [List.mem_append] at hv
+    rcases hv with (h | h) | h
+    · have := ltR v h; omega
+    · have := ltP v h; omega
+    · rcases n4 v h with ⟨k1, _⟩ | ⟨k1, k2⟩
+      · have := ltA v k1; omega
+      · omega
+
+/-- **`remap=True` leaves no gaps**: the numbers in use afterwards are exactly `1 … k - 1` for some `k` -/
+theorem repairFlat_true_gapfree (fR fP fA x y z : List Nat) (h : repairFlat true true fR fP fA = .ok (x, y, z)) :
+    ∃ k, ∀ v, v ∈ x ++ y ++ z ↔ 1 ≤ v ∧ v < k := by
+  obtain ⟨mR, mP, mA, n, _, rfl, rfl, rfl, hb⟩ := repairFlat_true_bounds fR fP fA x y z h
+  obtain ⟨l1, l2⟩ := loseList_props n (mR ++ mP ++ mA)
+  have hL : ∀ j ∈ loseList n (mR ++ mP ++ mA), 1 ≤ j ∧ j < n ∧ j ∉ mR ++ mP ++ mA := by
+    intro j hj
+    refine ⟨(l2 j hj).1, ?_, (l2 j hj).2⟩
+    unfold loseList at hj
+    rw [List.mem_reverse, List.mem_filter] at hj
+    exact List.mem_range.mp hj.1
+  have hc : ∀ k, 1 ≤ k → k < n → k ∈ loseList n (mR ++ mP ++ mA) ∨ k ∈ mR ++ mP ++ mA := by
+    intro k k1 kn
+    by_cases hk : k ∈ mR ++ mP ++ mA
+    · exact Or.inr hk
+    · left
+      unfold loseList
+      rw [List.mem_reverse, List.mem_filter]
+      refine ⟨List.mem_range.mpr kn, ?_⟩
+      simp only [Bool.and_eq_true, decide_eq_true_eq, Bool.not_eq_true', List.contains_eq_mem, decide_eq_false_iff_not]
+      exact ⟨k1, hk⟩
+  obtain ⟨g1, g2⟩ := shiftBy_gapfree _ _ n l1 hL hb hc
+  refine ⟨n - (loseList n (mR ++ mP ++ mA)).length, ?_⟩
+  intro v
+  rw [← List.map_append, ← List.map_append]
+  exact ⟨fun hv => g1 v hv, fun ⟨a, b⟩ => g2 v a b⟩
+
+theorem postprocess_remap_gapfree (R P A : List (List Nat)) (o : MapOut)
+    (h : postprocessRxn true true R P A = .ok o) :
+    ∃ k, ∀ v, v ∈ o.reactants.flatten ++ o.products.flatten ++ o.reagents.flatten ↔ 1 ≤ v ∧ v < k := by
+  unfold postprocessRxn at h
+  simp only [Bool.not_true, Bool.false_and, Bool.false_eq_true, if_false] at h
+  cases hr : repairFlat true true R.flatten P.flatten A.flatten with
+  | error e => rw [hr] at h; cases h
+  | ok v =>
+    obtain ⟨x, y, z⟩ := v
+    rw [hr] at h
+    simp only [Except.ok.injEq] at h
+    subst h
+    obtain ⟨rep, _⟩ := repairFlat_true_spec _ _ _ _ _ _ hr
+    simp only [(cutLike_shape R x rep.lenR).2, (cutLike_shape P y rep.lenP).2, (cutLike_shape A z rep.lenA).2]
+    exact repairFlat_true_gapfree _ _ _ _ _ _ hr
+
 end ChythonModel.Proofs.C15
